@@ -171,7 +171,7 @@ func TestC06FaultEnumeration(t *testing.T) {
 		W, K := base.count.Writes, base.count.Calls
 		maxCrash, maxOther := 120, 25
 		if thorough {
-			maxCrash, maxOther = 100000, 100000
+			maxCrash, maxOther = 100000, 600 // every write index for crashes; the other kinds up to 600 evenly spread indices (bounded run time)
 		}
 		var specs []sim.FaultSpec
 		for _, i := range sampleIdx(W, maxCrash) {
